@@ -63,6 +63,7 @@ class Block:
         
         if isinstance(self, Parent):
             # SolvedBlocks may use Js and may be nested in a CombinedBlock, so we need to pass them down to any parent
+            Js = self.remap_own_J(Js)
             out = self.M @ self._impulse_nonlinear(self.M.inv @ ss, self.M.inv @ inputs, self.M.inv @ actual_outputs, internals, Js, options, self.M.inv @ ss_initial, **own_options)
         elif hasattr(self, 'internals'):
             out = self.M @ self._impulse_nonlinear(self.M.inv @ ss, self.M.inv @ inputs, self.M.inv @ actual_outputs, self.internals_to_report(internals), self.M.inv @ ss_initial, **own_options)
@@ -81,11 +82,19 @@ class Block:
         actual_outputs, inputs_as_outputs = self.process_outputs(ss, self.make_ordered_set(inputs), self.make_ordered_set(outputs))
 
         if isinstance(self, Parent):
+            Js = self.remap_own_J(Js)
             out = self.M @ self._impulse_linear(self.M.inv @ ss, self.M.inv @ inputs, self.M.inv @ actual_outputs, Js, options, **own_options)
         else:
             out = self.M @ self._impulse_linear(self.M.inv @ ss, self.M.inv @ inputs, self.M.inv @ actual_outputs, Js, **own_options)
 
         return inputs[inputs_as_outputs] | out
+
+    def remap_own_J(self, Js):
+        """A saved J under this block's own name carries its external names; the block's internals need it in internal names"""
+        if self.name in Js:
+            Js = Js.copy()
+            Js[self.name] = self.M.inv @ Js[self.name]
+        return Js
 
     def partial_jacobians(self, ss: SteadyStateDict, inputs: Optional[List[str]] = None, outputs: Optional[List[str]] = None,
                           T: Optional[int] = None, Js: Dict[str, JacobianDict] = {}, options: Dict[str, dict] = {}, **kwargs):
@@ -130,9 +139,7 @@ class Block:
             return self.M @ self._jacobian(self.M.inv @ ss, self.M.inv @ inputs, self.M.inv @ outputs, T, **own_options)
         
         # otherwise remap own J (currently needed for SolvedBlock only)
-        Js = Js.copy()
-        if self.name in Js:
-            Js[self.name] = self.M.inv @ Js[self.name]
+        Js = self.remap_own_J(Js)
         return self.M @ self._jacobian(self.M.inv @ ss, self.M.inv @ inputs, self.M.inv @ outputs, T=T, Js=Js, options=options, **own_options)
 
     solve_steady_state_options = dict(solver="", solver_kwargs={}, ttol=1e-12, ctol=1e-9,
